@@ -3,3 +3,4 @@ CONSTANTS
   ParenFix = TRUE
   Rich = FALSE
   MaxLen = 3
+  RegexMatch <- SmallRegexMatch
